@@ -253,6 +253,19 @@ pub fn check_program(model: &mut Model, report: &mut Report, cfg: &Cfg, code: &s
         }
     }
 
+    // ---- which programs does the whole-rule theorem `inject_refines_whole` speak about?
+    if cfg.rule_name == "inject_global_value" {
+        let w = model.ask(&format!("c17.whole {} {} {}", hex(cfg.rule_name.as_bytes()), cfg.props, j.sexp0));
+        let bucket = match w.as_str() {
+            "(true true true)" => "inside",
+            x if x.starts_with("(false") => "outside: value is not a literal (table)",
+            x if x.starts_with("(true false") => "outside: program declares or assigns the name",
+            x if x.starts_with("(true true false") => "outside: an unshadowed _G.NAME / _G['NAME'] is rewritten",
+            _ => panic!("c17.whole protocol error: {}", w),
+        };
+        report.hist("inject_refines_whole_region", bucket);
+    }
+
     // ---- oracle (between environments)
     let mut oracle_failed = false;
     if cfg.oracle {
